@@ -23,11 +23,11 @@ type Atom struct {
 	S string
 }
 
-func AInt(i int64) Atom     { return Atom{T: 'i', I: i} }
-func AReal(r float64) Atom  { return Atom{T: 'r', R: r} }
-func ABool(b bool) Atom     { return Atom{T: 'b', B: b} }
-func AStr(s string) Atom    { return Atom{T: 's', S: s} }
-func AUUID(s string) Atom   { return Atom{T: 'u', S: s} }
+func AInt(i int64) Atom    { return Atom{T: 'i', I: i} }
+func AReal(r float64) Atom { return Atom{T: 'r', R: r} }
+func ABool(b bool) Atom    { return Atom{T: 'b', B: b} }
+func AStr(s string) Atom   { return Atom{T: 's', S: s} }
+func AUUID(s string) Atom  { return Atom{T: 'u', S: s} }
 
 func (a Atom) String() string {
 	switch a.T {
